@@ -1088,3 +1088,40 @@ V("C02", "twin-pdb-frame-slice", "mdtraj/formats/pdb/pdbfile.py", "            c
 V("C01", "mdcrd-overflow-truncated", "mdtraj/formats/mdcrd.py", "                if len(out) > 8:\n                    raise ValueError(\"Overflow error\")", "                if len(out) > 8:\n                    out = out[:8]", "C01-R4")
 V("C01", "mdcrd-lookahead-unguarded", "mdtraj/formats/mdcrd.py", "                try:\n                    peek = [float(elem) for elem in line.strip().split()]\n                except ValueError:\n                    # fixed-width coordinate fields that touch (\"0.000-125.000\"):\n                    # the first line of the next frame, not a box line\n                    peek = []", "                peek = [float(elem) for elem in line.strip().split()]", "C01-R4")
 V("C01", "save-hdf5-time-by-flag", TRJ, "                time=self.time,\n                cell_lengths=in_units_of(\n                    self.unitcell_lengths,\n                    Trajectory._distance_unit,\n                    f.distance_unit,\n                ),\n                cell_angles=self.unitcell_angles,\n            )\n            f.topology = self.topology", "                time=None if self._time_default_to_arange else self.time,\n                cell_lengths=in_units_of(\n                    self.unitcell_lengths,\n                    Trajectory._distance_unit,\n                    f.distance_unit,\n                ),\n                cell_angles=self.unitcell_angles,\n            )\n            f.topology = self.topology", "C01-R2")
+V("C11", "make_whole-identity-test", TRJ, "        if make_whole and sorted_bonds is None:", "        if make_whole is True and sorted_bonds is None:", "C11-R1", "Trajectory.image_molecules")
+V("C11", "twin-make_whole-bool-call", TRJ, "        if make_whole and sorted_bonds is None:", "        if bool(make_whole) and sorted_bonds is None:", None)
+V("C08", "triclinic-box-reloaded-only-on-change", GEOC,
+  "    for (int i = 0; i < n_frames; i++) {\n        // Load the periodic box vectors and make sure they're in reduced form.\n\n        fvec4 box_vec1(box_matrix[0], box_matrix[3], box_matrix[6], 0);",
+  "    fvec4 box_vec1;\n    for (int i = 0; i < n_frames; i++) {\n        // Load the periodic box vectors and make sure they're in reduced form.\n\n        if (i == 0 || box_matrix[0] != box_matrix[-9]) box_vec1 = fvec4(box_matrix[0], box_matrix[3], box_matrix[6], 0);",
+  "C08-R4", "dist_mic_triclinic")
+V("C08", "twin-triclinic-box-declared-outside-assigned-first", GEOC,
+  "    for (int i = 0; i < n_frames; i++) {\n        // Load the periodic box vectors and make sure they're in reduced form.\n\n        fvec4 box_vec1(box_matrix[0], box_matrix[3], box_matrix[6], 0);",
+  "    fvec4 box_vec1;\n    for (int i = 0; i < n_frames; i++) {\n        // Load the periodic box vectors and make sure they're in reduced form.\n\n        box_vec1 = fvec4(box_matrix[0], box_matrix[3], box_matrix[6], 0);",
+  None)
+V("C08", "wernet-nilsson-default-frequency-filter", HBP, "    angle_indices,\n    freq=0.0,\n    periodic=True,\n):", "    angle_indices,\n    freq=0.1,\n    periodic=True,\n):", "C08-R4", "wernet_nilsson")
+V("C14", "wernet-nilsson-default-frequency-filter", HBP, "    angle_indices,\n    freq=0.0,\n    periodic=True,\n):", "    angle_indices,\n    freq=0.1,\n    periodic=True,\n):", "C14-R1", "wernet_nilsson")
+V("C14", "twin-wernet-nilsson-explicit-zero", HBP, "        [0, 2],\n        [2, 0, 1],\n        periodic=periodic,\n    )", "        [0, 2],\n        [2, 0, 1],\n        freq=0.0,\n        periodic=periodic,\n    )", None)
+V("C17", "twin-getter-aliases-lengths", TRJ, "        v1, v2, v3 = lengths_and_angles_to_box_vectors(\n            self._unitcell_lengths[:, 0],  # a\n            self._unitcell_lengths[:, 1],  # b\n            self._unitcell_lengths[:, 2],  # c",
+  "        lengths = self._unitcell_lengths\n        v1, v2, v3 = lengths_and_angles_to_box_vectors(\n            lengths[:, 0],  # a\n            lengths[:, 1],  # b\n            lengths[:, 2],  # c", None)
+V("C17", "getter-first-frame-when-lengths-constant", TRJ, "        v1, v2, v3 = lengths_and_angles_to_box_vectors(\n            self._unitcell_lengths[:, 0],  # a", "        v1, v2, v3 = lengths_and_angles_to_box_vectors(\n            self._unitcell_lengths[:1, 0],  # a", "C17-R3", "Trajectory.unitcell_vectors.getter")
+PDBF = "mdtraj/formats/pdb/pdbfile.py"
+_EL_OLD = """                        element = atom.element
+                        if element is None:
+                            element = PDBTrajectoryFile._guess_element(
+                                atomName,
+                                residue.name,
+                                len(residue),
+                            )
+"""
+V("C04", "twin-pdb-element-conditional-expression", PDBF, _EL_OLD, """                        element = atom.element if atom.element is not None else PDBTrajectoryFile._guess_element(
+                            atomName,
+                            residue.name,
+                            len(residue),
+                        )
+""", None)
+V("C04", "pdb-element-falsy-virtual-site-reguessed", PDBF, _EL_OLD, """                        element = atom.element or PDBTrajectoryFile._guess_element(
+                            atomName,
+                            residue.name,
+                            len(residue),
+                        )
+""", "C04-R6", "PDBTrajectoryFile._read_models")
